@@ -103,7 +103,9 @@ def one(R, rnd, workdir, idx):
     ref = Ref(si)
     nslist = [n for n in sorted(ref.local) if n >= 0 and n != 6]
     bases = ["Alpha", "Beta gamma", "Ärger", "Écôle x", "日本語", "Foo (bar)", "A/b", "X-y.z", "Q~r", "Under score", "İz", "1st", "C++",
-             "Tab le", "Ab:cd"]
+             "Tab le", "Ab:cd",
+             # titles with compatibility characters next to their plain look-alikes (titles are NFC, not NFKC)
+             "Km\u00b2", "Km2", "H\u2082O", "H2O", "X \u00bd", "X 1\u20442", "Of\ufb01ce", "Office", "No \u2160", "No I", "A\uff21"]
     # ---- model --------------------------------------------------------------------------------
     pages = {}            # canonical title -> {revid: text}
     meta = {}             # canonical title -> (ns, base)
@@ -139,6 +141,14 @@ def one(R, rnd, workdir, idx):
     names = ["Pic.png", "Photo one.jpg", "Diagram.svg", "Ünï.png", "A-b.c_d~e.png", "Map 2.PNG", "x.gif"]
     for nme in rnd.sample(names, rnd.randint(0, 4)):
         images[filens + ":" + nme] = os.urandom(rnd.randint(1, 64))
+    if rnd.random() < 0.35:
+        # one name in several formats, and compatibility characters next to their look-alikes
+        stem = rnd.choice(("Logo", "Karte A", "Km\u00b2", "Km2", "Sign"))
+        for ext in rnd.sample(("svg", "png", "gif", "tif", "tiff", "jpg", "PNG"), rnd.randint(2, 4)):
+            images[filens + ":" + stem + "." + ext] = os.urandom(8) + ext.encode()
+        if rnd.random() < 0.5:
+            for nme in ("Km\u00b2.png", "Km2.png"):
+                images.setdefault(filens + ":" + nme, os.urandom(8) + nme.encode("utf-8"))
     pairs = []
     if rnd.random() < 0.5:
         # distinct titles over [letters digits space - . _ ~] must be kept apart
